@@ -560,6 +560,7 @@ pub fn run_script_in(
         let (res, kind) = apply_step(script, log, step);
         let events = verif::take_events();
         if kind == "panic" || kind == "io" {
+            let keep_going = kind == "io" && _opts.contains_key("keep-going");
             record.steps.push(StepRecord {
                 idx,
                 begin,
@@ -568,6 +569,12 @@ pub fn run_script_in(
                 kind,
             });
             record.aborted = true;
+            if keep_going {
+                // (histories in hostile directories: what the library does when the caller retries
+                // after an I/O error matters too; the model-based monitors stop judging at the
+                // first failed call, the directory-level ones judge the whole history)
+                continue;
+            }
             break;
         }
         let st = observe(script, log, &runner.dir.path, probe_seed);
